@@ -252,6 +252,7 @@ func (m *Machine) runPath(entry *ssa.Function, rep *EntryReport, mu *sync.Mutex)
 		m.run = 2
 		m.nInputs1 = len(m.inputs)
 		m.inputIdx, m.evIdx = 0, 0
+		m.labelSuffix = ""
 		m.call(nil, entry, nil)
 		if m.evIdx != len(m.events1) {
 			m.c20mismatch("the repeated execution ends earlier than the first one")
